@@ -87,6 +87,7 @@ type cxLevel struct {
 	Flags    []string // long flag names (struct tag first, then documented)
 	Envs     []string // env var names (struct tag first, then documented-only aliases)
 	DocOnly  map[string]bool
+	Undoc    bool // the documentation does not say where this option ranks among the setting's other options
 }
 
 type cxSetting struct {
@@ -238,43 +239,85 @@ func cxSettings() ([]*cxSetting, map[string]*cxSetting) {
 					s.Default = mf.Default
 					s.Choices = mf.Choices
 					s.Class = cxClassOf(mf)
-					for i, n := range cxSplitNames(mf.Envvar) {
-						for len(s.Levels) <= i {
-							s.Levels = append(s.Levels, cxLevel{DocOnly: map[string]bool{}})
-						}
-						s.Levels[i].Envs = append(s.Levels[i].Envs, n)
-						s.Levels[i].DocOnly[n] = true
-					}
-					for i, n := range cxSplitNames(mf.CommandLine) {
-						for len(s.Levels) <= i {
-							s.Levels = append(s.Levels, cxLevel{DocOnly: map[string]bool{}})
-						}
-						s.Levels[i].Flags = append(s.Levels[i].Flags, n)
-						s.Levels[i].DocOnly[n] = true
+				}
+				// Precedence levels. The ORDER of a fallback chain is taken from the documentation only
+				// (metadata envvar:/commandLine: lists, first = the setting's own name, later = shared
+				// fallbacks; README: "REFINERY_HONEYCOMB_LOGGER_API_KEY takes precedence over
+				// REFINERY_HONEYCOMB_API_KEY"), never from the order of the struct's cmdenv tag. The CmdEnv
+				// option table (one field = one flag + one env var, as --help prints it) only pairs each
+				// documented env var with its flag.
+				byEnv := map[string]reflect.StructField{}
+				for k := 0; k < cmdT.NumField(); k++ {
+					if env := cmdT.Field(k).Tag.Get("env"); env != "" {
+						byEnv[env] = cmdT.Field(k)
 					}
 				}
-				// cmdenv struct tags
-				for i, cf := range cxSplitNames(sf.Tag.Get("cmdenv")) {
+				structFields := cxSplitNames(sf.Tag.Get("cmdenv"))
+				covered := map[string]bool{}
+				var docEnvs, docFlags []string
+				if s.HasMeta {
+					mf := meta.GetField(s.Path)
+					docEnvs, docFlags = cxSplitNames(mf.Envvar), cxSplitNames(mf.CommandLine)
+				}
+				for _, env := range docEnvs {
+					lv := cxLevel{DocOnly: map[string]bool{}, Envs: []string{env}}
+					if f, ok := byEnv[env]; ok {
+						lv.CmdField = f.Name
+						covered[f.Name] = true
+						if long := f.Tag.Get("long"); long != "" {
+							lv.Flags = append(lv.Flags, long)
+						}
+					} else {
+						lv.DocOnly[env] = true // documented name no option carries
+					}
+					s.Levels = append(s.Levels, lv)
+				}
+				for i, fl := range docFlags {
 					for len(s.Levels) <= i {
 						s.Levels = append(s.Levels, cxLevel{DocOnly: map[string]bool{}})
 					}
-					lv := &s.Levels[i]
+					if !cxContains(s.Levels[i].Flags, fl) {
+						s.Levels[i].Flags = append(s.Levels[i].Flags, fl)
+						s.Levels[i].DocOnly[fl] = true
+					}
+				}
+				// options the struct names but the documentation does not
+				var uncovered []string
+				for _, cf := range structFields {
+					if !covered[cf] {
+						uncovered = append(uncovered, cf)
+					}
+				}
+				var docOnlyLevels []int
+				for i := range s.Levels {
+					if s.Levels[i].CmdField == "" {
+						docOnlyLevels = append(docOnlyLevels, i)
+					}
+				}
+				for _, cf := range uncovered {
+					f, ok := cmdT.FieldByName(cf)
+					if !ok {
+						continue
+					}
+					var lv *cxLevel
+					switch {
+					case len(uncovered) == 1 && len(docOnlyLevels) == 1:
+						// one documented name without an option and one option without documentation: the same
+						// level under two names (a documentation/code naming mismatch shows up as a finding)
+						lv = &s.Levels[docOnlyLevels[0]]
+					default:
+						s.Levels = append(s.Levels, cxLevel{DocOnly: map[string]bool{}, Undoc: len(s.Levels) > 0 || len(uncovered) > 1})
+						lv = &s.Levels[len(s.Levels)-1]
+					}
 					lv.CmdField = cf
-					if f, ok := cmdT.FieldByName(cf); ok {
-						if long := f.Tag.Get("long"); long != "" {
-							if cxContains(lv.Flags, long) {
-								delete(lv.DocOnly, long)
-							} else {
-								lv.Flags = append([]string{long}, lv.Flags...)
-							}
-						}
-						if env := f.Tag.Get("env"); env != "" {
-							if cxContains(lv.Envs, env) {
-								delete(lv.DocOnly, env)
-							} else {
-								lv.Envs = append([]string{env}, lv.Envs...)
-							}
-						}
+					if long := f.Tag.Get("long"); long != "" && !cxContains(lv.Flags, long) {
+						lv.Flags = append([]string{long}, lv.Flags...)
+						delete(lv.DocOnly, long)
+					} else if long != "" {
+						delete(lv.DocOnly, long)
+					}
+					if env := f.Tag.Get("env"); env != "" && !cxContains(lv.Envs, env) {
+						lv.Envs = append([]string{env}, lv.Envs...)
 					}
 				}
 				switch sf.Type.String() {
